@@ -138,15 +138,23 @@ def property_theorems(pid):
     return ["Bp.%s.%s" % (pid, n) for n in names]
 
 
-def audit(pid, timeout=1200):
-    """#print axioms for every property theorem.  Returns dict(ok, theorems, axioms, problems, log)."""
+def module_theorems(pid, mod):
+    txt = strip_comments(open(os.path.join(LEAN, "BpProofs", "Props", mod + ".lean")).read())
+    return ["Bp.%s.%s" % (pid, n) for n in re.findall(r"^\s*theorem\s+([A-Za-z0-9_'.]+)", txt, re.M)]
+
+
+def audit(pid, timeout=1200, only=None):
+    """#print axioms for every property theorem.  Returns dict(ok, theorems, axioms, problems, log).
+    `only`: the property modules that built (theorems of the others are listed but get no axiom report)"""
     thms = property_theorems(pid)
+    mods = property_modules(pid) if only is None else [m for m in property_modules(pid) if m in only]
+    asked = [t for m in mods for t in module_theorems(pid, m)]
     os.makedirs(os.path.join(LEAN, ".audit"), exist_ok=True)
     path = os.path.join(LEAN, ".audit", "Audit_%s_%d.lean" % (pid, os.getpid()))
     with open(path, "w") as f:
-        for mod in property_modules(pid):
+        for mod in mods:
             f.write("import BpProofs.Props.%s\n" % mod)
-        for t in thms:
+        for t in asked:
             f.write("#print axioms %s\n" % t)
     try:
         rc, out, _ = sh(["lake", "env", "lean", path], cwd=LEAN, timeout=timeout)
